@@ -12,7 +12,7 @@ pub const ID_CAP: u32 = 260;
 /// 0 move-through, 1 replace by a fresh token, 2 clone-and-keep, 3 move-through written as
 /// `|t: Tok| -> Tok {..}`, 4 a function path instead of a closure (cannot exit early)
 pub const N_CLOSURES: u8 = 5;
-pub const N_SHAPES: u8 = 23;
+pub const N_SHAPES: u8 = 26;
 
 #[derive(Serialize, Deserialize, Clone, Copy, Debug, PartialEq)]
 pub enum Exit {
@@ -200,7 +200,10 @@ pub fn shape_layout(shape: u8) -> Vec<bool> {
         19 => vec![true; 5],                              // [a, rest @ ..]
         20 => vec![false, false, false],                  // [..] alone
         21 => vec![true, true, true],                     // multi-segment path: crate::..::S3 {x, y, z}
-        _ => vec![true, false],                           // [a] and [_]
+        22 => vec![true, false],                          // [a] and [_]
+        23 => vec![true, true, true],                     // S3 {z, x, y}: pattern order differs from declaration order
+        24 => vec![true, false, true],                    // T3(a, _, c)
+        _ => vec![true, true],                            // [a, rest @ .., z] over 2 elements (empty rest)
     }
 }
 
